@@ -157,13 +157,17 @@ def run(ctx, progs):
             rt = b.return_terms()
             returns_unit = b.j.get("sig", "").rstrip().endswith("-> ()") or "->" not in b.j.get("sig", "")
             # copy_slice's count is what its callers report; the inner volatile routine may equally well return nothing
-            ok_h = (bool(rt) and all(unref(t)[:2] == ('param', idx) for _p, t in rt)) or (nm == "copy_slice_volatile" and returns_unit)
-            ctx.ob("R4.2.helper_returns_count", b.key, ok_h, b.where(), "returns its `total` argument" + (" (or nothing: no caller can rely on it)" if nm == "copy_slice_volatile" else ""))
+            # a helper that returns nothing cannot mislead anybody: its callers then report `total` themselves (checked below)
+            ok_h = (bool(rt) and all(unref(t)[:2] == ('param', idx) for _p, t in rt)) or returns_unit
+            ctx.ob("R4.2.helper_returns_count", b.key, ok_h, b.where(), "returns its `total` argument (or nothing: then no caller can rely on a returned count)")
         for nm in ("copy_from_volatile_slice", "copy_to_volatile_slice"):
             b = prog.one(name=nm, path_re=r"copy_slice_impl::" + nm + "$")
             rt = b.return_terms()
-            ok = bool(rt) and all(is_call(unref(t), "copy_slice") and unref(unref(t)[2][2])[:2] == ('param', 3) for _p, t in rt)
             cs = [c for c in b.calls() if canon(c.target or "").endswith("copy_slice_impl::copy_slice")]
+            # returns what copy_slice(.., total) returned, or `total` itself after exactly that call
+            ok = bool(rt) and all((is_call(unref(t), "copy_slice") and unref(unref(t)[2][2])[:2] == ('param', 3)) or
+                                  (unref(t)[:2] == ('param', 3) and len(cs) == 1 and unref(cs[0].arg(2))[:2] == ('param', 3) and b.pos_dominates(cs[0].pos, _p))
+                                  for _p, t in rt)
             dir_ok = False
             if len(cs) == 1:
                 a = cs[0].args()
